@@ -45,6 +45,9 @@ def main (args : List String) : IO UInt32 := do
   | ["model", "apps"] => engineLoop (fun (st : AppsState) l => stepApps st (splitWords l)) {} inp out; return 0
   | ["model", "appsfdl"] => engineLoop (fun (st : AppsState) l => stepApps st (splitWords l)) {} inp out; return 0
   | ["oracle", "C18", o, i] => oracleLoop oracleC18 {} o i
+  | ["oracle", "C05apps", o, i] => oracleLoop oracleC05apps {} o i
+  | ["oracle", "C05any", o, i] => oracleLoop (fun (_ : Unit) op obs => ((), oracleC05any op obs)) () o i
+  | ["oracle", "C05dp", o, i] => oracleLoop oracleC05dp ({}, ()) o i
   | ["model", "dp"] => engineLoop (fun (st : Option DpCase) l => stepDp st (splitWords l)) none inp out; return 0
   | ["model", "dpfdl"] => engineLoop (fun (st : Option DpCase) l => stepDp st (splitWords l)) none inp out; return 0
   | ["oracle", "C03", o, i] => oracleLoop oracleC03 ({}, {}) o i
